@@ -243,8 +243,10 @@ class MLMCPath(MCPath):
         payoff_underlying_from_cp = product.underlying_value(
             times, path_coarse, jump_path_coarse
         )
-        self.payoff = np.array(
-            [product(payoff_underlying_from_fp), product(payoff_underlying_from_cp)]
+        # the fine/coarse values are on the last axis (a vector payoff gives an array of shape (dimension, 2))
+        self.payoff = np.stack(
+            [product(payoff_underlying_from_fp), product(payoff_underlying_from_cp)],
+            axis=-1,
         )
         self.process_spot_level_l(path_fine, path_coarse)
         self.payoff_control_variates = control_variates.process_mlmc(
@@ -268,7 +270,7 @@ class MLMCPath(MCPath):
         jump_path = self.stochastic_path.value_jump()
         payoff_underlying = product.underlying_value(times, path, jump_path)
         payoff = product(payoff_underlying)
-        self.payoff = np.array([payoff, 0.0])
+        self.payoff = np.stack([payoff, np.zeros_like(payoff)], axis=-1)
         self.process_spot(path)
         self.payoff_control_variates = control_variates.process(
             times=times,
